@@ -229,10 +229,17 @@ pub fn main_with(h: Harness) {
                 )
             }
             let _ = PROP_FN.set(h.prop);
+            // a loaded machine must not turn a slow git subprocess into a HANG verdict: deadlines of
+            // 10 s and more are raised to at least 45 s; shorter ones are deliberate (hang detection)
+            let h_deadline = if h.deadline >= Duration::from_secs(10) && h.deadline < Duration::from_secs(45) {
+                Duration::from_secs(45)
+            } else {
+                h.deadline
+            };
             let mut guard = match cmd {
-                "impl" => Guard::new(h.imp, h.deadline),
+                "impl" => Guard::new(h.imp, h_deadline),
                 "git" => Guard::new(h.git.unwrap_or(no_git), Duration::from_secs(120)),
-                _ => Guard::new(prop_line_static, h.deadline),
+                _ => Guard::new(prop_line_static, h_deadline),
             };
             for line in stdin.lock().lines() {
                 let line = line.unwrap();
